@@ -638,7 +638,7 @@ c01_one_option_num!(c01_one_option_num_l1, 1);
 //@ what=as c01_one_option_num_l1
 c01_one_option_num!(c01_one_option_num_l13, 13);
 
-//@ props=C01 tier=thorough timeout=1800 mem=13 cap=2 name=c01_one_option_num_l269
+//@ props=C01 tier=experimental timeout=1800 mem=13 cap=2 name=c01_one_option_num_l269
 //@ functions=Packet::to_bytes_internal
 //@ bounds=as c01_one_option_num_l1 with a value of 269 bytes (two-byte extended length next to every delta class)
 //@ what=as c01_one_option_num_l1
